@@ -73,6 +73,25 @@ theorem runs_in_order (K : ConnOps κ) (routes : List (Route κ)) (fuel : Nat) (
     (runIdx (route K routes fuel cx).1).Pairwise (· < ·) :=
   round_runs_sorted K routes fuel {} cx [] ⟨by simp [runIdx], by simp [runIdx]⟩
 
+/-- **Routes run only when matched**: every time the handlers of a route are invoked, that route exists in the list and its
+matcher sets answered `yes` on the connection as it stood then (all bytes received so far, after the handlers of earlier routes);
+the handlers get that connection with the matching deadline cleared.  For every route list, matcher, handler, schedule, fuel. -/
+theorem runs_only_matched (K : ConnOps κ) (routes : List (Route κ)) (fuel : Nat) (cx : κ) (i : Nat) (cx0 : κ)
+    (h : Ev.run i cx0 ∈ (route K routes fuel cx).1) :
+    ∃ r cx', routes[i]? = some r ∧ cx0 = K.arm false cx' ∧ anyMatch r.sets cx' = .yes :=
+  round_runsOk K routes fuel {} cx [] (by intro i cx0 hm; cases hm) i cx0 h
+
+/-- in particular a route whose every matcher set says `no` on a connection is never run on it -/
+theorem unmatched_never_runs (K : ConnOps κ) (routes : List (Route κ)) (fuel : Nat) (cx : κ) (i : Nat) (cx' : κ) (r : Route κ)
+    (hr : routes[i]? = some r) (hno : anyMatch r.sets cx' ≠ .yes) :
+    Ev.run i (K.arm false cx') ∉ (route K routes fuel cx).1 ∨ ∃ cx'', K.arm false cx' = K.arm false cx'' ∧ anyMatch r.sets cx'' = .yes := by
+  by_cases hm : Ev.run i (K.arm false cx') ∈ (route K routes fuel cx).1
+  · right
+    obtain ⟨r', cx'', h1, h2, h3⟩ := runs_only_matched K routes fuel cx i _ hm
+    rw [hr] at h1; cases h1
+    exact ⟨cx'', h2, h3⟩
+  · left; exact hm
+
 /-! non-vacuity: a concrete two-route list on the layered connection model whose second route runs -/
 def demoRoutes : List (Route Src) :=
   [ { sets := [[fun cx => if cx.avail.length < 2 then .more else .no]], h := fun cx => ([], .next cx) },
